@@ -1,3 +1,4 @@
+import copy
 from typing import List, Any
 
 import AoE2ScenarioParser.datasets.conditions as condition_dataset
@@ -186,7 +187,8 @@ class Trigger(AoE2Object, TriggerComponent):
         effect_defaults = get_default_effect_attributes(effect_type)
         effect_attr = {}
         for key, value in effect_defaults.items():
-            effect_attr[key] = (locals()[key] if locals()[key] is not None else value)
+            # defaults come from a process-wide dataset dict: never hand out its (mutable) objects themselves
+            effect_attr[key] = (locals()[key] if locals()[key] is not None else copy.copy(value))
         new_effect = Effect(**effect_attr, uuid=self._uuid)
         self.effects.append(new_effect)
         return new_effect
@@ -218,7 +220,7 @@ class Trigger(AoE2Object, TriggerComponent):
         condition_defaults = get_default_condition_attributes(condition_type)
         condition_attr = {}
         for key, value in condition_defaults.items():
-            condition_attr[key] = (locals()[key] if locals()[key] is not None else value)
+            condition_attr[key] = (locals()[key] if locals()[key] is not None else copy.copy(value))
         new_condition = Condition(**condition_attr, uuid=self._uuid)
         self.conditions.append(new_condition)
         return new_condition
